@@ -2,7 +2,8 @@
 From NV Require Import Prelude Num NumF32 Random Tensor.
 From NV.Theory Require Import Monad Build.
 From Flocq Require Import Core BinarySingleNaN.
-Require Import Reals Lra.
+Require Import Reals Lra Lia.
+Import ListNotations.
 Set Implicit Arguments.
 
 Section C15.
@@ -142,6 +143,46 @@ Section C15.
   Theorem clamp_spec (a : tensor) lo hi :
     t_clamp a lo hi = mkT (tshape a) (map_data (fun x => clamp x lo hi) (tdata a)).
   Proof. reflexivity. Qed.
+
+  (* lists with optional entries (per-layer bias gradients): addition is positional; lists of
+     different lengths are refused; where either side has no entry the left entry is kept *)
+  Theorem nestedopt_add_spec (a b r : list (option tensor)) :
+    add_inplace_nestedopt a b = Ok r ->
+    length a = length b /\ length r = length a /\
+    forall i, nth_error r i =
+              match nth_error a i, nth_error b i with
+              | Some (Some x), Some (Some y) => match add_inplace x y with Ok z => Some (Some z) | Panic _ => None end
+              | Some x, Some _ => Some x
+              | _, _ => None
+              end.
+  Proof.
+    unfold add_inplace_nestedopt. destruct (length a =? length b) eqn:El; [|discriminate]. cbn [bind].
+    apply Nat.eqb_eq in El. revert b r El. induction a as [|x a IH]; intros [|y b] r El H; cbn [length] in El; try discriminate.
+    - cbn in H. injection H as <-. split; [reflexivity|]. split; [reflexivity|]. intros [|i]; reflexivity.
+    - cbn [combine mapM] in H.
+      destruct x as [x|], y as [y|].
+      + destruct (add_inplace x y) as [z|] eqn:Ez; [|discriminate]. cbn [bind] in H.
+        destruct (mapM _ (combine a b)) as [r'|] eqn:Er; [|discriminate]. cbn [bind] in H. injection H as <-.
+        destruct (IH b r' ltac:(lia) Er) as (_ & Hl & Hn).
+        split; [cbn [length]; lia|]. split; [cbn [length]; lia|].
+        intros [|i]; cbn [nth_error]; [rewrite Ez; reflexivity|apply Hn].
+      + cbn [bind] in H. destruct (mapM _ (combine a b)) as [r'|] eqn:Er; [|discriminate]. cbn [bind] in H. injection H as <-.
+        destruct (IH b r' ltac:(lia) Er) as (_ & Hl & Hn).
+        split; [cbn [length]; lia|]. split; [cbn [length]; lia|]. intros [|i]; cbn [nth_error]; [reflexivity|apply Hn].
+      + cbn [bind] in H. destruct (mapM _ (combine a b)) as [r'|] eqn:Er; [|discriminate]. cbn [bind] in H. injection H as <-.
+        destruct (IH b r' ltac:(lia) Er) as (_ & Hl & Hn).
+        split; [cbn [length]; lia|]. split; [cbn [length]; lia|]. intros [|i]; cbn [nth_error]; [reflexivity|apply Hn].
+      + cbn [bind] in H. destruct (mapM _ (combine a b)) as [r'|] eqn:Er; [|discriminate]. cbn [bind] in H. injection H as <-.
+        destruct (IH b r' ltac:(lia) Er) as (_ & Hl & Hn).
+        split; [cbn [length]; lia|]. split; [cbn [length]; lia|]. intros [|i]; cbn [nth_error]; [reflexivity|apply Hn].
+  Qed.
+
+  Theorem nestedopt_add_refuses_length_mismatch (a b : list (option tensor)) :
+    length a <> length b -> exists c, add_inplace_nestedopt a b = Panic c.
+  Proof.
+    intros H. unfold add_inplace_nestedopt. replace (length a =? length b) with false by (symmetry; apply Nat.eqb_neq; exact H).
+    eexists. reflexivity.
+  Qed.
 End C15.
 
 (* ---- binary32 facts: the arithmetic IS the IEEE-754 single precision operation ---- *)
